@@ -15,6 +15,7 @@ Open Scope Q_scope.
 Open Scope string_scope.
 """
 
+CORPUS = [("exp2d", "tls"), ("exp2c", "tls"), ("exp2d", "lsq"), ("twoexp", "lsq"), ("pade", "tls"), ("cosh", "tls")]
 VERDICTS = ["fit_values_ok", "fit_stationary", "fit_chisq_ok", "fit_implicit"]
 
 
@@ -60,8 +61,10 @@ def run(ctx):
     ncase = 30 if quick else 400
     for i in range(ncase):
         name = rng.choice(sorted(fam))
-        npar, ncomp, build, ptrue, xgen = fam[name]
         kind = rng.choice(["lsq", "lsq", "lsq", "tls"])
+        if i < len(CORPUS):                   # stratification: combinations every run must contain
+            name, kind = CORPUS[i]
+        npar, ncomp, build, ptrue, xgen = fam[name]
         npts = rng.randint(npar + 3, npar + 5)
         xs = xgen(rng, npts)
         expr = build([E.var(j) for j in range(npar)], [E.var(npar + c) for c in range(ncomp)])
